@@ -48,8 +48,13 @@ def newline_of(data: bytes) -> str:
 
 
 def encode_text(text, nl, enc=None):
-    enc = enc or declared_encoding(text) or "utf-8"
-    return text.replace("\n", nl).encode(enc)
+    """Bytes of a '\\n'-normalised text under a newline convention.  A coding
+    line counts only if Python itself would see it: within the first two
+    '\\n'-terminated lines of the *converted* text (in a CR-only file the whole
+    text is one such line, so only a cookie at its very start is a cookie)."""
+    converted = text.replace("\n", nl)
+    enc = enc or declared_encoding(converted) or "utf-8"
+    return converted.encode(enc)
 
 
 class TreeModel:
@@ -176,6 +181,7 @@ class HistoryModel:
         self.limit = limit
         self.undo = []  # records: {"id": int, "ops": [...]}
         self.redo = []
+        self.stale = set()  # ids on the redo list whose prerequisite was dropped
 
     def current(self) -> TreeModel:
         t = self.base.copy()
@@ -218,7 +224,41 @@ class HistoryModel:
         if not drop:
             # rope undoes the most recent dependant first
             self.redo.extend(reversed(deps))
+        else:
+            # changes still on the redo list that were made on top of a dropped
+            # change can no longer be redone meaningfully ("stale")
+            touched = set()
+            for r in deps:
+                touched |= touched_paths(r["ops"])
+            grew = True
+            while grew:
+                grew = False
+                for r in self.redo:
+                    if r["id"] in self.stale:
+                        continue
+                    tp = touched_paths(r["ops"])
+                    if any(paths_conflict(a, b) for a in tp for b in touched):
+                        self.stale.add(r["id"])
+                        touched |= tp
+                        grew = True
         return deps
+
+    def redo_feasible(self, index=None):
+        """Whether redoing makes sense on the current tree.  After
+        undo(drop=True) the redo list can hold changes whose prerequisite was
+        dropped; redoing those is a caller error, not part of the property."""
+        saved = (list(self.undo), list(self.redo), self.base.copy())
+        try:
+            i = len(self.redo) - 1 if index is None else index
+            if any(r["id"] in self.stale for r in self.closure(self.redo, i)):
+                return False
+            self.redo_sel(index)
+            self.current()
+            return True
+        except ModelError:
+            return False
+        finally:
+            self.undo, self.redo, self.base = saved
 
     def redo_sel(self, index=None):
         if index is None:
